@@ -121,6 +121,22 @@ class Sc:
         return {k: q for k, q in self.lin.items() if q != 0}
 
 
+def _const_of(n):
+    """Compile-time integer value of an expression node (through implicit casts / parentheses), else None."""
+    while n is not None:
+        if "cv" in n:
+            try:
+                return int(n["cv"])
+            except (TypeError, ValueError):
+                return None
+        if n["k"] in ("ImplicitCastExpr", "ParenExpr", "ConstantExpr") and n.get("ch"):
+            n = n["ch"][0]
+        else:
+            return None
+    return None
+
+
+N_DIV_DEP = [0]  # number of divisions whose divisor depends on inputs (grid points, coefficients, ...)
 N_SC_CMP = [0]   # number of scalar comparisons evaluated (a suite can assert that a computation is branch-free in values)
 
 
@@ -179,6 +195,8 @@ def sc_arith(op, a, b):
         return Sc(NAN, deps, lin=None, mono=None)
     if op == "/" and a is b and a.v is None:
         return Sc(1)   # the very same (opaque, non-zero) value divided by itself
+    if op == "/" and b.deps:
+        N_DIV_DEP[0] += 1   # division by a quantity derived from inputs: the result is no polynomial of the inputs
     lin, pure = _lin_arith(op, a, b)
     mono = _mono_arith(op, a, b)
     if a.v is None or b.v is None:
@@ -517,6 +535,7 @@ class Interp:
         self.divzero = []       # divisions by a value known to be exactly zero (defined for IEEE types only)
         self.rawcmp = []        # scalar storage compared byte-wise instead of through T's operator==
         self.rec_solvers = []   # recording solver models created during the current evaluation
+        self.thresholds = {}    # comparisons of run-time integers with constants > 8: site -> [outcomes, constant, function]
         self.bigconv = []       # integers beyond INT_MAX converted to the scalar type (T is constructible from int)
 
     # -- lookup -----------------------------------------------------------------------
@@ -1297,7 +1316,19 @@ class Interp:
             if isinstance(x, Sc) and isinstance(y, Sc):
                 return 1 if sc_cmp(op, x, y) else 0
             if isinstance(x, int) and isinstance(y, int):
-                return 1 if {"<": x < y, "<=": x <= y, ">": x > y, ">=": x >= y, "==": x == y, "!=": x != y}[op] else 0
+                r_ = 1 if {"<": x < y, "<=": x <= y, ">": x > y, ">=": x >= y, "==": x == y, "!=": x != y}[op] else 0
+                if a is not None and b is not None and self.frames:
+                    # a run-time integer compared with a compile-time constant beyond the evaluated sizes: remember which
+                    # outcomes were seen (the small-model argument needs both, see r_reg.run_jobs)
+                    ca, cb = _const_of(a), _const_of(b)
+                    if (ca is None) != (cb is None):
+                        k_ = ca if ca is not None else cb
+                        if 8 < abs(k_) < (1 << 31):
+                            fn = self.frames[-1]["__fn__"]
+                            if fn.in_lib():
+                                site = (fn.pkey, e.get("l"), e.get("c"))
+                                self.thresholds.setdefault(site, [set(), k_, fn.pqn])[0].add(r_)
+                return r_
             if isinstance(x, Iter) and isinstance(y, Iter):
                 if x.vec is not y.vec:
                     raise ModelUB("comparison of iterators into different containers")
@@ -2130,7 +2161,10 @@ class Interp:
                 r = val(self.call(ff, fn, [box(x)]))
                 if not isinstance(r, Sc):
                     raise OutOfFragment("integrand value %r" % (r,))
-                return Sc(None, r.deps | a_.deps | b_.deps, lin=None, mono=r.mono)
+                # the contribution of this sub-interval is one opaque quantity q[a,b]: sums of contributions stay affine
+                # in these atoms, so the caller can see that every interval is accumulated exactly once
+                gi = tuple(sorted(d_[1] for d_ in (a_.deps | b_.deps) if d_[0] == "grid" and len(d_) > 1))
+                return Sc(None, r.deps | a_.deps | b_.deps, lin={("q",) + gi: Fraction(1)}, pure=True, mono=r.mono)
             if base in ("std::begin", "std::cbegin"):
                 return Iter(V[0], 0)
             if base in ("std::end", "std::cend"):
